@@ -22,7 +22,7 @@ RULE = (
     'b) - a on levels. Later rounds: the same inputs as ONE array (list, float64, float32) against the scalar '
     'answers; sums with mixed prefixes; linear units into compound logarithmic targets (/cm2, /kHz); augmented += '
     'and -= on levels. Round 8: value / to / value on one object answers for the units it has at that moment. '
-    'Distinct = distinct case JSON.'
+    'Round 10: an array-valued quantity is asked twice and read in its own unit afterwards. Distinct = distinct case JSON.'
 )
 ASSUMPTIONS = [
     "dBx<->dBy pairs the documentation does not promise (e.g. dBuA->dBA) are not demanded",
